@@ -108,9 +108,16 @@ async fn settle() {
 
 pub fn run(sx: &Sx) -> Vec<String> {
     let l = sx.list();
-    let mode = l[1].atom().to_string();
-    let view = parse(&l[2]);
-    let schedule: Vec<u32> = l[3].list().iter().map(|g| g.num()).collect();
+    run_one(l[1].atom(), &l[2], &l[3]).0
+}
+
+/// one render; also returns the number of live reactive nodes seen when the view function starts
+pub fn run_one(mode: &str, view: &Sx, sched: &Sx) -> (Vec<String>, usize) {
+    let mode = mode.to_string();
+    let view = parse(view);
+    let schedule: Vec<u32> = sched.list().iter().map(|g| g.num()).collect();
+    let count = Rc::new(std::cell::Cell::new(0usize));
+    let (c1, c2, c3) = (count.clone(), count.clone(), count.clone());
     let mut ids = Vec::new();
     gates_of(&view, &mut ids);
     let mut senders: HashMap<u32, oneshot::Sender<()>> = HashMap::new();
@@ -123,14 +130,20 @@ pub fn run(sx: &Sx) -> Vec<String> {
     let mut out = Vec::new();
     match mode.as_str() {
         "sync" => {
-            let s = render_to_string(move || build(&view, &gates));
+            let s = render_to_string(move || {
+                c1.set(sycamore_reactive::verif::node_count());
+                build(&view, &gates)
+            });
             out.push(format!("sync {}", hex(&s)));
         }
         "blocking" => {
             let rt = tokio::runtime::Builder::new_current_thread().build().unwrap();
             let local = tokio::task::LocalSet::new();
             local.block_on(&rt, async {
-                let fut = render_to_string_await_suspense(move || build(&view, &gates));
+                let fut = render_to_string_await_suspense(move || {
+                    c2.set(sycamore_reactive::verif::node_count());
+                    build(&view, &gates)
+                });
                 futures::pin_mut!(fut);
                 let mut done = false;
                 for step in 0..=schedule.len() {
@@ -164,7 +177,10 @@ pub fn run(sx: &Sx) -> Vec<String> {
             let rt = tokio::runtime::Builder::new_current_thread().build().unwrap();
             let local = tokio::task::LocalSet::new();
             local.block_on(&rt, async {
-                let stream = render_to_string_stream(move || build(&view, &gates));
+                let stream = render_to_string_stream(move || {
+                    c3.set(sycamore_reactive::verif::node_count());
+                    build(&view, &gates)
+                });
                 let mut stream = Box::pin(stream);
                 let mut ended = false;
                 for step in 0..=schedule.len() {
@@ -192,5 +208,5 @@ pub fn run(sx: &Sx) -> Vec<String> {
         }
         m => panic!("unsupported mode {m}"),
     }
-    out
+    (out, count.get())
 }
